@@ -46,11 +46,27 @@ def this_field(n):
     return None
 
 
+def strip_conv(n):
+    """looks through casts and single-argument converting constructions"""
+    n = strip_casts(n)
+    while n is not None and n["k"] in ("CXXConstructExpr", "CXXTemporaryObjectExpr") and len(kids(n)) == 1:
+        n = strip_casts(kids(n)[0])
+    return n
+
+
+_FLIP = {"==": "!=", "!=": "=="}
+
+
 def binop(n, ops=None):
-    """(op, lhs, rhs) for builtin binary operators and two-argument operator calls"""
+    """(op, lhs, rhs) for builtin binary operators and two-argument operator calls;
+    !(a == b) (C++20 rewritten a != b) is normalised to a != b"""
     n = strip_casts(n)
     if n is None:
         return None
+    if n["k"] == "UnaryOperator" and n.get("op") == "!" and kids(n):
+        inner = binop(kids(n)[0], ("==", "!="))
+        if inner and (ops is None or _FLIP[inner[0]] in ops):
+            return _FLIP[inner[0]], inner[1], inner[2]
     if n["k"] in ("BinaryOperator", "CompoundAssignOperator"):
         if ops is None or n["op"] in ops:
             return n["op"], kids(n)[0], kids(n)[1]
